@@ -7,7 +7,7 @@
 """
 import copy
 import numpy as np
-from pmv import common, gen, observe
+from pmv import common, gen, observe, corpus
 
 ID   = 'C03'
 RULE = ( 'all ground families (vertical, sloping, inverted L, T, two grounded wires, elevated horizontal and bent '
@@ -26,12 +26,25 @@ MAX_DISCARD = 0.5
 
 def plan (tier, seed):
     n = 260 if tier == 'quick' else 5000
-    return [dict (i = i, seed = seed) for i in range (n)]
+    return [dict (i = i, seed = seed) for i in range (n)] \
+         + corpus.plan_cases (seed, tier, 1, 4, only = lambda s: s ['media'] is not None and all (g ['k'] == 'w' for g in s ['geo']))
 # end def plan
 
 MIR = np.array ([1, 1, -1.0])
 
 def make (c):
+    if 'corpus' in c:
+        # the repository's antennas over ground (wires only), currents over the ideal plane
+        spec = corpus.located (corpus.make (c, 3))
+        spec ['media'] = [[0.0, 0.0, 0.0, None]]
+        spec.pop ('boundary', None)
+        spec.pop ('radials', None)
+        for g in spec ['geo']:
+            # ends within the documented tolerance of the plane are on it: the mirrored model needs the exact zero
+            for k in ('p1', 'p2'):
+                if abs (g [k][2]) < 1e-9:
+                    g [k][2] = 0.0
+        return gen.clean (spec)
     rng  = np.random.default_rng ([c ['seed'], 3, c ['i']])
     spec = gen.fam_ground (rng, seg_hi = 1 / 20.5, shift = bool (rng.random () < 0.5))
     gen.add_sources (rng, spec, nmax = 3)
@@ -81,7 +94,27 @@ def mirrored (spec):
         else:
             src.append (dict (at = at.tolist (), dir = d.tolist (), v = list (v)))
             src.append (dict (at = (at * MIR).tolist (), dir = (d * MIR).tolist (), v = [-v [0], -v [1]]))
-    return dict (f = spec ['f'], geo = geo, media = None, src = src, loads = [dict (l) for l in spec.get ('loads') or []], fam = spec.get ('fam'))
+    loads = []
+    for l in spec.get ('loads') or []:
+        if 'at' not in l:
+            if l.get ('tag') is not None:
+                raise corpus.Not_Convertible ('distributed load on one object')
+            loads.append (dict (l))
+            continue
+        at = np.array (l ['at'])
+        if at [2] != 0:
+            # a load above ground and its image
+            loads.append (dict (l))
+            loads.append (dict (l, at = (at * MIR).tolist ()))
+        elif l ['k'] == 'z':
+            # a load in the ground point is in series with its image: twice the impedance
+            loads.append (dict (l, z = [2 * l ['z'][0], 2 * l ['z'][1]]))
+        elif l ['k'] == 'rlc':
+            loads.append (dict (l, R = None if l ['R'] is None else 2 * l ['R'], L = None if l ['L'] is None else 2 * l ['L']
+                               , C = None if l ['C'] is None else l ['C'] / 2))
+        else:
+            raise corpus.Not_Convertible ('load kind %s in the ground point' % l ['k'])
+    return dict (f = spec ['f'], geo = geo, media = None, src = src, loads = loads, fam = spec.get ('fam'))
 # end def mirrored
 
 def check (c):
